@@ -18,6 +18,11 @@
 #include <jsoncons_ext/jsonpointer/jsonpointer.hpp>
 #include <jsoncons_ext/jsonpatch/jsonpatch.hpp>
 #include <jsoncons_ext/jsonschema/jsonschema.hpp>
+#include <jsoncons_ext/mergepatch/mergepatch.hpp>
+#include <jsoncons_ext/csv/csv.hpp>
+#include <jsoncons_ext/toon/encode_toon.hpp>
+#include <jsoncons_ext/toon/decode_toon.hpp>
+#include <map>
 #include <scoped_allocator>
 #include <optional>
 #include <sys/wait.h>
@@ -142,6 +147,22 @@ static void run_scenario(const mj::Value& c, long n, bool log = true) {
             std::optional<ojson> cp, t1;
             window(n, r, [&] { cp.emplace(a); o.insert_or_assign("a long member name number 1", a); o.merge(b); t1.emplace(b); o.merge_or_update(std::move(*t1)); o.try_emplace("k9", a); o.erase("k1"); ojson x; x = o; std::string s; x.dump(s); });
             r.usable = usable(a) && usable(o) && usable(b); }
+        else if (scn == "mergepatch") { json a = json::parse(text); json p = json::parse("{\"k1\":null,\"k2\":{\"w\":\"another long string value 0123456789\",\"v\":null},\"a long member name number 1\":[1,2,3]}"); json p0 = p;
+            window(n, r, [&] { mergepatch::apply_merge_patch(a, p); }); r.usable = usable(a) && usable(p) && (p == p0); }
+        else if (scn == "diffs") { json a = json::parse(text); json b = json::parse("{\"k1\":\"a long string value 0123456789\",\"k2\":[1,{\"z\":\"another long string value 0123456789\"},3]}"); json a0 = a, b0 = b; std::optional<json> d1, d2;
+            window(n, r, [&] { d1.emplace(mergepatch::from_diff(a, b)); d2.emplace(jsonpatch::from_diff(a, b)); }); r.usable = usable(a) && usable(b); r.same = (a == a0) && (b == b0); r.strong = true; }
+        else if (scn == "jsonpath-replace") { json a = json::parse(text); window(n, r, [&] { jsonpath::json_replace(a, "$..*", std::string("a replacement long string value 0123456789")); auto ex = jsonpath::make_expression<json>("$[*]"); ex.update(a, [](const jsonpath::path_node&, json& v) { v = json(json_array_arg); }); }); r.usable = usable(a); }
+        else if (scn == "csv-roundtrip") { json t = json::parse("[[\"a long column name 0123456789\",\"b\"],[\"a long field value, with a comma 0123456789\",1.5],[\"x\",null]]"); std::string s; std::optional<json> back; std::optional<ojson> rows;
+            window(n, r, [&] { csv::encode_csv(t, s); back.emplace(csv::decode_csv<json>(s, csv::csv_options{}.mapping_kind(csv::csv_mapping_kind::n_rows))); rows.emplace(csv::decode_csv<ojson>(s, csv::csv_options{}.assume_header(true))); }); r.usable = usable(t); }
+        else if (scn == "toon-roundtrip") { json a = json::parse("{\"a\":[1,2,3],\"b\":{\"c\":\"a long string value, with a comma 0123456789\"},\"rows\":[{\"k\":1,\"m\":\"a long string value 0123456789\"},{\"k\":2,\"m\":\"t\"}],\"l\":[1,\"x\",{\"k\":true}]}"); std::string s; std::optional<json> back; window(n, r, [&] { toon::encode_toon(a, s); back.emplace(toon::decode_toon<json>(s)); }); r.usable = usable(a); }
+        else if (scn == "typed") { std::map<std::string, std::vector<std::string>> m{{"a long member name number 1", {"a long string value 0123456789", "b"}}, {"k", {}}}; std::string s; std::vector<uint8_t> b;
+            std::optional<std::map<std::string, std::vector<std::string>>> m2, m3; std::optional<std::vector<std::pair<std::string, json>>> kv;
+            window(n, r, [&] { encode_json(m, s); m2.emplace(decode_json<std::map<std::string, std::vector<std::string>>>(s)); cbor::encode_cbor(m, b); m3.emplace(cbor::decode_cbor<std::map<std::string, std::vector<std::string>>>(b)); json j(m); auto v = j.as<std::map<std::string, std::vector<std::string>>>(); (void)v; });
+            r.usable = m.size() == 2; }
+        else if (scn == "cursor") { std::optional<json> got; window(n, r, [&] { json_string_cursor cur(text); json_decoder<json> dec; cur.read_to(dec); got.emplace(dec.get_result());
+                                    json_string_cursor c2(text); size_t k = 0; for (; !c2.done(); c2.next()) { if (c2.current().event_type() == staj_event_type::string_value) k += c2.current().get<std::string>().size(); } (void)k; }); }
+        else if (scn == "sort-erase") { json a = json::parse("[\"a long string value 3 0123456789\",\"a long string value 1 0123456789\",[3,2,1],{\"k\":\"a long string value 2 0123456789\"},2,1]"); json src = json::parse(text);
+            window(n, r, [&] { a.push_back(src); std::sort(a.array_range().begin(), a.array_range().end()); a.erase(a.array_range().begin(), a.array_range().begin() + 2); a.insert(a.array_range().end(), src); json o = json::parse("{\"b\":1,\"a\":2}"); o.erase(o.object_range().begin(), o.object_range().end()); }); r.usable = usable(a) && usable(src); }
         else if (scn.rfind("stateful-o-", 0) == 0) { stateful_scn<sojson>(scn.substr(11), text, n, r); }
         else if (scn.rfind("stateful-", 0) == 0) { stateful_scn<sjson>(scn.substr(9), text, n, r); }
         logev('E', r.out == "ok" ? 0 : r.out == "bad_alloc" ? 1 : 2, 0, 0);
